@@ -5,6 +5,7 @@ import (
 	"runtime/debug"
 	"sort"
 	"strings"
+	"sync"
 	"sync/atomic"
 	"time"
 
@@ -233,7 +234,18 @@ func runSchedule(mk func() stackage.Stack, progs [][]schedOp, prefix []int, moni
 	s.lastKey = s.last.Key(false)
 	activeSched = s
 	stackage.VerifHook = schedHook
-	defer func() { activeSched = nil }()
+	// the clock is the harness's too: every reading is one minute later than the one before, so that no
+	// execution depends on how long the machine took, and whatever the library concludes from the age of
+	// something (a lock held "too long") it concludes in every schedule where two readings frame it
+	tick := time.Date(2020, 1, 1, 0, 0, 0, 0, time.UTC)
+	var tickMu sync.Mutex
+	stackage.VerifClock(func() time.Time {
+		tickMu.Lock()
+		defer tickMu.Unlock()
+		tick = tick.Add(time.Minute)
+		return tick
+	})
+	defer func() { activeSched = nil; stackage.VerifClock(nil) }()
 	for i, p := range progs {
 		t := &thr{id: i, resume: make(chan struct{}), prog: p, lastEv: "start"}
 		s.threads = append(s.threads, t)
